@@ -19,7 +19,6 @@
 
 package at
 
-// Verification contracts (comment-only, tag verif) for property C05: a TCC prepare registers its
 // Verification contracts (comment-only, tag verif) for property C03, second sentence: a locking
 // read inside a global transaction hands rows to the caller only after the coordinator has said they
 // are lockable; on a conflict it fails and releases the local row locks it took.
@@ -65,6 +64,34 @@ package at
 //@   ensures result1 == nil ==> result0 != nil
 //@ ext (*seata.apache.org/seata-go/pkg/datasource/sql/types.ParseContext).GetTableName
 //@   ensures true
+
+// C03, first sentence, the key text itself: the lock key built from an image names the table and, for
+// EVERY row of the image, the value of EVERY primary-key column the row carries (composite keys
+// included). r, c, k stand for an arbitrary row, column and key-name index; fmtv(x) is the text
+// fmt prints for x. Abstract: which columns the table's primary key has (GetPrimaryKeyOnlyName).
+//@ ext (seata.apache.org/seata-go/pkg/datasource/sql/types.TableMeta).GetPrimaryKeyOnlyName
+//@   ensures true
+//@ func (*baseExecutor).buildLockKey
+//@   prop C03
+//@   requires records != nil
+//@   let r := some(int, "r")
+//@   let c := some(int, "c")
+//@   let k := some(int, "k")
+//@   loop 1 invariant index: rangeindex1 >= -1
+//@   loop 1 invariant table-named: contains(content(&lockKeys), meta.TableName + ":")
+//@   loop 1 invariant rows-done: r <= rangeindex1 && 0 <= r && r < len(records.Rows) && 0 <= c && c < len(records.Rows[r].Columns) && 0 <= k && k < len(keys) && keys[k] == records.Rows[r].Columns[c].ColumnName ==> contains(content(&lockKeys), fmtv(records.Rows[r].Columns[c].Value))
+//@   loop 2 invariant index: rangeindex2 >= -1
+//@   loop 2 invariant table-named: contains(content(&lockKeys), meta.TableName + ":")
+//@   loop 2 invariant rows-done: r <= rangeindex1 && 0 <= r && r < len(records.Rows) && 0 <= c && c < len(records.Rows[r].Columns) && 0 <= k && k < len(keys) && keys[k] == records.Rows[r].Columns[c].ColumnName ==> contains(content(&lockKeys), fmtv(records.Rows[r].Columns[c].Value))
+//@   loop 2 invariant columns-done: r == rangeindex1 + 1 && c <= rangeindex2 && 0 <= r && r < len(records.Rows) && 0 <= c && c < len(records.Rows[r].Columns) && 0 <= k && k < len(keys) && keys[k] == records.Rows[r].Columns[c].ColumnName ==> contains(content(&lockKeys), fmtv(records.Rows[r].Columns[c].Value))
+//@   loop 3 invariant index: rangeindex3 >= -1
+//@   loop 3 invariant table-named: contains(content(&lockKeys), meta.TableName + ":")
+//@   loop 3 invariant rows-done: r <= rangeindex1 && 0 <= r && r < len(records.Rows) && 0 <= c && c < len(records.Rows[r].Columns) && 0 <= k && k < len(keys) && keys[k] == records.Rows[r].Columns[c].ColumnName ==> contains(content(&lockKeys), fmtv(records.Rows[r].Columns[c].Value))
+//@   loop 3 invariant columns-done: r == rangeindex1 + 1 && c <= rangeindex2 && 0 <= r && r < len(records.Rows) && 0 <= c && c < len(records.Rows[r].Columns) && 0 <= k && k < len(keys) && keys[k] == records.Rows[r].Columns[c].ColumnName ==> contains(content(&lockKeys), fmtv(records.Rows[r].Columns[c].Value))
+//@   loop 3 invariant keys-done: r == rangeindex1 + 1 && c == rangeindex2 + 1 && k <= rangeindex3 && 0 <= r && r < len(records.Rows) && 0 <= c && c < len(records.Rows[r].Columns) && 0 <= k && k < len(keys) && keys[k] == records.Rows[r].Columns[c].ColumnName ==> contains(content(&lockKeys), fmtv(records.Rows[r].Columns[c].Value))
+//@   at return: assert names-the-table: contains(result, meta.TableName + ":")
+//@   at return: assert names-every-key-column-of-every-row: 0 <= r && r < len(records.Rows) && 0 <= c && c < len(records.Rows[r].Columns) && 0 <= k && k < len(keys) && keys[k] == records.Rows[r].Columns[c].ColumnName ==> contains(result, fmtv(records.Rows[r].Columns[c].Value))
+//@   nopanic
 
 //@ func (*selectForUpdateExecutor).doExecContext
 //@   prop C03 C16
